@@ -139,3 +139,15 @@ LEVEL_NOTE = ("C01/C02 clause for the renderer (round 2): hostile-message and re
               "every Encode (not the subject of C20).")
 TECHNIQUE = "Coq proof over an executable model + extracted-model/implementation differential run"
 DESIGN_REF = "DESIGN.md section 6, C20"
+
+# ---- L0b: kernel-checked agreement of the arithmetic this property's model restates with the
+# ---- Go source (coq/Gen/GoArith2.v is regenerated by gotrans on every run; see docs/gotrans.md)
+import l0_common as _l0
+COQ_TARGETS = list(COQ_TARGETS) + _l0.COQ_TARGETS2_BY_OWNER["C20"]
+EXTRA_OBLIGATIONS = list(globals().get("EXTRA_OBLIGATIONS", [])) + _l0.EXTRA_OBLIGATIONS2_BY_OWNER["C20"]
+_l0_prev_generate = globals().get("generate")
+
+
+def generate(res):
+    notes = list(_l0_prev_generate(res) or []) if (_l0_prev_generate and _l0_prev_generate is not _l0.generate) else []
+    return notes + list(_l0.generate(res) or [])
